@@ -72,13 +72,21 @@ func genCorsCfg(r *core.Rand) *corsCfg {
 	if r.Chance(1, 2) {
 		c.MaxAge = r.Range(1, 3600)
 	}
-	switch r.Intn(4) {
+	switch r.Intn(5) {
 	case 0:
 		c.Headers = []string{"Content-Type", "Accept"}
 	case 1:
 		c.Headers = []string{"X-Custom", "content-type", "Authorization"}
 	case 2:
 		c.Headers = []string{"*"}
+	case 3:
+		c.Headers = []string{"X-Authorization-Hint", "Accept-Language", "Content-Type"} // names that CONTAIN other header names
+	}
+	if r.Chance(1, 2) && len(c.Headers) == 0 {
+		switch r.Intn(2) {
+		case 0:
+			c.Headers = []string{"X-Authorization-Hint", "Accept-Language"}
+		}
 	}
 	switch r.Intn(4) {
 	case 0:
@@ -126,7 +134,9 @@ func (c *corsCfg) policy(origin string) string {
 		return originAllowed
 	}
 	for _, d := range c.Domains {
-		if d == ".*" || strings.EqualFold(d, origin) {
+		// "ignoring case" = equal after lower-casing; Unicode case FOLDING would also identify look-alikes such as
+		// U+017F (long s) with s - a grant the more careful reading does not give
+		if d == ".*" || strings.ToLower(d) == strings.ToLower(origin) {
 			return originAllowed
 		}
 	}
@@ -152,7 +162,7 @@ func originVariants(r *core.Rand, cfg *corsCfg) []string {
 		if e == ".*" || len(e) < 2 {
 			continue
 		}
-		out = append(out, e, strings.ToUpper(e), strings.ToLower(e), e[:len(e)-1], e[1:], e+".evil.com", e+"x", "x"+e, "evil-"+e, e+":8443", e+"/",
+		out = append(out, strings.Replace(e, "s", "\u017f", 1), strings.Replace(e, "k", "\u212a", 1), e, strings.ToUpper(e), strings.ToLower(e), e[:len(e)-1], e[1:], e+".evil.com", e+"x", "x"+e, "evil-"+e, e+":8443", e+"/",
 			strings.Replace(e, ".", "x", 1), strings.Replace(e, "http://", "https://", 1), strings.Replace(e, "https://", "http://", 1), e+" ", " "+e, e+","+e, e+"\t")
 		if i := strings.Index(e, "://"); i > 0 {
 			out = append(out, e[i+3:], e[:i+3]+"evil.com."+e[i+3:], e[:i+3]+e[i+3:]+".")
@@ -307,7 +317,7 @@ func c08(ctx *core.Ctx) {
 				p.tap.mu.Unlock()
 				mut := "other"
 				if oi >= 10 {
-					mut = fmt.Sprintf("m%d", (oi-10)%21)
+					mut = fmt.Sprintf("m%d", (oi-10)%23)
 				} else {
 					mut = fmt.Sprintf("fixed%d", oi)
 				}
@@ -424,7 +434,7 @@ func c09(ctx *core.Ctx) {
 	quietLogs()
 	ctx.Rule("generated CORS configurations x route tables (C17's fragment), both routers. Preflights: requested method from {GET,POST,PUT,DELETE,PATCH,HEAD, lower-case, unknown}, requested header lists (0-4 entries, any case, SP around commas, one foreign header at any position). Oracle: no later filter/handler event; grant => method within allowed methods (configured, or probed on a filter-less twin when unconfigured) and every header allowed; listed method + allowed headers => grant; refusal => zero Access-Control-* headers. Actual requests from allowed origins: chain continues like the twin and Allow-Origin/Credentials/Expose-Headers/Max-Age appear exactly once when configured. History: 30 preflights alternating over URLs with different method sets on ONE filter value, sequentially and from 8 goroutines (race detector on). Non-trivial = a judged preflight or actual request; distinct by (grant/refusal reason, configured vs computed methods, header list shape, history mode).")
 	configs := ctx.N(300, 30000)
-	reqHeaders := []string{"Content-Type", "content-type", "ACCEPT", "X-Custom", "Authorization", "X-Evil", "x-custom", "Accept"}
+	reqHeaders := []string{"Content-Type", "content-type", "ACCEPT", "X-Custom", "Authorization", "X-Evil", "x-custom", "Accept", "Language", "Content", "x-authorization-hint", "Hint", "accept-language"}
 	for ci := 0; ci < configs; ci++ {
 		if ctx.Skip(ci) {
 			continue
